@@ -164,6 +164,13 @@ def gen_world(r, anp=False, big=False, pods=True, multi_kind=True):
     if r.random() < 0.25 and W['workloads']:
         cover_bias(r, W)
 
+    # mixed-peers bias: one rule whose peers are an ipBlock FIRST and then a pod selector: every entry of the list counts
+    if W['workloads'] and r.random() < 0.15:
+        w = r.choice(W['workloads'])
+        d_ = r.choice(['ingress', 'egress'])
+        W['netpols'].append({'ns': w['ns'], 'name': 'npmixedpeers', 'podSelector': {}, 'policyTypes': ['Ingress' if d_ == 'ingress' else 'Egress'],
+                             d_: [{'from' if d_ == 'ingress' else 'to': [{'ipBlock': {'cidr': '10.0.0.0/8'}}, {'podSelector': {}}],
+                                   'ports': [{'protocol': 'TCP', 'port': r.choice(PORTS)}]}]})
     # label-less bias: a workload without any label facing a rule whose selector only excludes (NotIn / DoesNotExist): it is selected
     if W['workloads'] and r.random() < 0.15:
         w = r.choice(W['workloads'])
